@@ -114,7 +114,8 @@ def main(argv=None):
     gen_n = tally.case_counts.get('generated', 0)
     for label, floor in getattr(check, 'FLOORS', {}).items():
         frac = tally.labels.get(label, 0) / max(1, gen_n)
-        if gen_n and frac < floor and not tally.budget_exhausted:
+        # (20 % slack: the floors were set from measured fractions at a few seeds)
+        if gen_n and frac < 0.8 * floor and not tally.budget_exhausted:
             raise core.HarnessError(
                 f'generator floor not met: class {label!r} is {frac:.4f} < {floor}')
 
